@@ -451,6 +451,13 @@ func (c *Ctx) run(s *State) {
 				c.npaths++
 				return
 			}
+			// diagnostic mode (GOVC_BLOCKREACH=1): one vacuity guard per basic block of the function under contract — a block
+			// that no explored path reaches feasibly is either dead code or hidden by a contradictory assumption
+			if blockReach && len(s.frames) == 1 && len(fr.block.Instrs) > 0 {
+				if _, isPanic := fr.block.Instrs[len(fr.block.Instrs)-1].(*ssa.Panic); !isPanic {
+					c.reach(s, "reach", fmt.Sprintf("block%d:%s", fr.block.Index, c.eng.prog.Fset.Position(firstPos(fr.block)).String()), "block reachable")
+				}
+			}
 		}
 		if fr.idx >= len(fr.block.Instrs) {
 			unsup("fell off block")
@@ -630,6 +637,7 @@ func (c *Ctx) enterBlock(s *State, fr *Frame) bool {
 		if lc != nil {
 			for i, be := range lc.BodyEnsures {
 				env.loopCallBase = snap.callLogLen
+				env.prevSrc, env.prevHeap = snap.src, snap.heap
 				c.obligeClause(s, env, "body", loopLabel(ord, be, i), be)
 			}
 			for i, inv := range lc.Invariants {
@@ -771,6 +779,17 @@ func (c *Ctx) enterBlock(s *State, fr *Frame) bool {
 		}
 		if lc.Decreases != nil {
 			snap.dec = c.bind(s, "dec", c.ar.idxSort(), env.eval(lc.Decreases.Expr).(Scalar).T)
+		}
+	}
+	// source-level variables at the start of the iteration (dereferenced now: local cells change later)
+	snap.src = map[string]Val{}
+	{
+		denv := c.newSpecEnv(s, fr)
+		for name, v := range fr.src {
+			func() {
+				defer func() { recover() }()
+				snap.src[name] = denv.derefSrc(v)
+			}()
 		}
 	}
 	fr.loops[b] = snap
@@ -2475,4 +2494,16 @@ func blankFreeVarName(fn *ssa.Function, fv *ssa.FreeVar, fallback int) string {
 		}
 	}
 	return fmt.Sprintf("_%d", fallback)
+}
+
+
+var blockReach = os.Getenv("GOVC_BLOCKREACH") != ""
+
+func firstPos(b *ssa.BasicBlock) token.Pos {
+	for _, in := range b.Instrs {
+		if p := in.Pos(); p != token.NoPos {
+			return p
+		}
+	}
+	return token.NoPos
 }
